@@ -224,6 +224,7 @@ type Sim struct {
 	chans    []*chanCore
 	implicit bool
 	overflow bool
+	sameRun  int
 }
 
 type partner struct {
@@ -547,7 +548,18 @@ func (s *Sim) schedChoice(cand []*G, me *G) int {
 	}
 	st := &s.cfg.Strategy
 	n := len(cand)
-	// sleepers yield to everything else
+	// bounded unfairness: a goroutine that keeps running without ever blocking (a polling loop with
+	// a default case) is preempted after 2000 consecutive operations, whatever the strategy, so that
+	// such code makes progress instead of exhausting the step budget
+	if me != nil && cand[0] == me {
+		s.sameRun++
+		if s.sameRun > 2000 && n > 1 {
+			s.sameRun = 0
+			return 1 + s.rnd(n-1)
+		}
+	} else {
+		s.sameRun = 0
+	}
 	switch st.Kind {
 	case StratUniform:
 		return s.rnd(n)
